@@ -42,14 +42,43 @@ type Class struct {
 type model struct {
 	classes []Class
 	gen     []int  // generation of each class definition (0 = first, 1 = redefined): names of its accessors
-	tail    string // what every precedence list ends in: "standard-object t", "condition t", ...
+	base    string // implicit base class: standard-object or condition
+	// rootParent: built-in class that classes without a parent name explicitly (0 = none)
+	rootParent int
 }
 
 func newModel(c *Case, classes []Class) *model {
-	return &model{classes: classes, gen: make([]int, len(classes)), tail: c.tail()}
+	m := &model{classes: classes, gen: make([]int, len(classes)), base: "standard-object"}
+	if c.Cond != "" {
+		m.base = "condition"
+	}
+	if c.Cond == "error" {
+		m.rootParent = idError
+	}
+	return m
 }
 
+// Built-in condition classes named explicitly as parents have negative ids.
+const (
+	idError   = -1
+	idSerious = -2
+	idCond    = -3
+)
+
+var builtinName = map[int]string{idError: "error", idSerious: "serious-condition", idCond: "condition"}
+
 func (m *model) lin(c int) []int {
+	switch c {
+	case idError:
+		return []int{idSerious, idCond}
+	case idSerious:
+		return []int{idCond}
+	case idCond:
+		return nil
+	}
+	if m.rootParent != 0 && len(m.classes[c].Supers) == 0 {
+		return append([]int{m.rootParent}, m.lin(m.rootParent)...)
+	}
 	var out []int
 	seen := map[int]bool{}
 	add := func(k int) {
@@ -73,14 +102,39 @@ func (m *model) prec(c int) []int {
 	return append([]int{c}, m.lin(c)...)
 }
 
+// precNames renders the precedence list: the classes, then the implicit base
+// class unless it is already on the list, then t.
 func (m *model) precNames(c int) string {
 	var sb strings.Builder
 	sb.WriteByte('(')
+	hasBase := false
 	for _, k := range m.prec(c) {
+		if k < 0 {
+			sb.WriteString(builtinName[k] + " ")
+			if builtinName[k] == m.base {
+				hasBase = true
+			}
+			continue
+		}
 		sb.WriteString("@c" + strconv.Itoa(k) + " ")
 	}
-	sb.WriteString(m.tail + ")")
+	if !hasBase {
+		sb.WriteString(m.base + " ")
+	}
+	sb.WriteString("t)")
 	return sb.String()
+}
+
+// baseMidList tells whether the implicit base class is on the list of c
+// before some other class (only possible with an explicit built-in parent).
+func (m *model) baseMidList(c int) bool {
+	p := m.prec(c)
+	for i, k := range p {
+		if k < 0 && builtinName[k] == m.base && i != len(p)-1 {
+			return true
+		}
+	}
+	return false
 }
 
 func (m *model) inherits(c, d int) bool {
@@ -95,7 +149,7 @@ func (m *model) inherits(c, d int) bool {
 // ancestors of c that are defined in the set.
 func (m *model) ready(c int, defined map[int]bool) bool {
 	for _, k := range m.prec(c) {
-		if !defined[k] {
+		if 0 <= k && !defined[k] {
 			return false
 		}
 	}
@@ -117,6 +171,9 @@ func (m *model) slots(c int) []effSlot {
 	byName := map[string]*effSlot{}
 	var order []string
 	for _, k := range m.prec(c) {
+		if k < 0 {
+			continue
+		}
 		for _, sd := range m.classes[k].Slots {
 			es := byName[sd.Name]
 			if es == nil {
